@@ -39,11 +39,16 @@ class Arr(list):
 
 
 class RNG:
+    """a generator object is stateful: the k-th draw from one object differs from the first (a fresh generator made
+    from the same seed starts again at the first draw)"""
+
     def __init__(self, stream):
         self.s = stream
+        self.calls = 0
 
     def random(self, *a, **k):
-        return self.s['u']
+        self.calls += 1
+        return self.s['u'] if self.calls == 1 else self.s['u2']
 
     def _n(self, a, k, default=None):
         n = k.get('size', a[2] if len(a) > 2 else default)
@@ -104,10 +109,12 @@ def gen_tag(dist, deg, pk, r, uk, x0, x1, x2, y0, y1, y2):
     prob = pick([0.0, 0.5, 1.0], pk)
     SEEDED.clear()
     seed = PIN.get('seed', 20)
+    u2 = pick([0.75, 0.0, 0.5], uk)          # what a generator that is NOT re-created would return on its second use
     for sd in (0, 7, 20):
-        SEEDED[sd] = {'u': u, 'x': [x0, x1, x2]}
+        SEEDED[sd] = {'u': u, 'u2': u2, 'x': [x0, x1, x2]}
     # an unseeded generator is a different stream every time it is created
-    FRESH[:] = [{'u': u, 'x': [y0, y1, y2]}, {'u': u, 'x': [y1, y2, y0]}, {'u': u, 'x': [y2, y0, y1]}, {'u': u, 'x': [y0, y2, y1]}] * 2
+    FRESH[:] = [{'u': u, 'u2': u2, 'x': [y0, y1, y2]}, {'u': u, 'u2': u2, 'x': [y1, y2, y0]}, {'u': u, 'u2': u2, 'x': [y2, y0, y1]},
+                {'u': u, 'u2': u2, 'x': [y0, y2, y1]}] * 3
     dname = DIST[dist]
     dm = DelayModel(prob, dname, DEG[deg], seed=seed)
     try:
@@ -121,6 +128,12 @@ def gen_tag(dist, deg, pk, r, uk, x0, x1, x2, y0, y1, y2):
         return f'C15/raises-on-second-call/{type(ex).__name__}/{dname}'
     if out2 != out:
         return f'C15/not-deterministic/{dname}'
+    try:
+        out3 = dm.generate_delay(r, 3)             # the same model asked again with the same arguments
+    except Exception as ex:
+        return f'C15/raises-on-second-call/{type(ex).__name__}/{dname}'
+    if out3 != out:
+        return f'C15/not-deterministic/same-model-asked-twice/{dname}'
     if out < r:
         return f'C15/shortened/{dname}'
     if (deg == 3 or pk == 0 or r == 0) and out != r:
